@@ -13,7 +13,8 @@ package main
 //
 //	env   "-" or NAME=<hex value>,…           environment variables to set (all other VFLOW_* are unset)
 //	file  "-" (no file) or "F:" + key:i:<decimal> | key:b:true|false | key:s:<hex>, comma separated
-//	args  "-" or comma separated hex tokens of os.Args[1:]; "@" = path of the file, "." = empty token
+//	args  "-" or comma separated hex tokens of os.Args[1:]; "@" = path of the file, "<hex>@" = the
+//	      text followed by the path of the file (-config=<path>), "." = empty token
 //
 // For every line one line "<impl>\t<verdict>" is written to $VERIF_OUT:
 //
@@ -22,7 +23,8 @@ package main
 //	verdict = ok | fail:<reason>: the expectation names the touched fields and their values by the
 //	          documented precedence; every other field must equal NewOptions()'s default.
 //
-// Cases expected to end the process (log.Fatal in getEnv, flag errors, -h) run in a child process.
+// Cases expected to end the process (log.Fatal in getEnv, flag errors, -h) or to panic (the code may
+// reach flag.Parse and exit instead) run in a child process.
 
 import (
 	"bufio"
@@ -120,11 +122,15 @@ func verifParseOptions(line, cfgPath string) (c verifOptCase, err error) {
 			case ".":
 				c.args = append(c.args, "")
 			default:
+				suffix := ""
+				if strings.HasSuffix(t, "@") {
+					t, suffix = strings.TrimSuffix(t, "@"), cfgPath
+				}
 				v, err := verifUnhex(t)
 				if err != nil {
 					return c, err
 				}
-				c.args = append(c.args, v)
+				c.args = append(c.args, v+suffix)
 			}
 		}
 	}
@@ -292,7 +298,7 @@ func TestVerifOptions(t *testing.T) {
 			}
 		}
 		var impl string
-		if strings.HasPrefix(expect, "exit") {
+		if strings.HasPrefix(expect, "exit") || expect == "panic" {
 			cmd := exec.Command(self, "-test.run=^TestVerifOptions$")
 			env := []string{}
 			for _, kv := range os.Environ() {
